@@ -302,15 +302,19 @@ def orbit_cardinality(orbit: list, modes: int) -> Union[int, float]:
     Returns:
         int: number of samples in the orbit
     """
+    if modes < len(orbit):
+        # an orbit with more non-zero entries than modes has no samples
+        return 0
+
     sample = orbit + [0] * (modes - len(orbit))
     counts = list(Counter(sample).values())
 
-    # factorials of numbers larger than 170 do not fit into a int,
-    # hence return float using the qarg `exact=True`
-    if modes > 170:
-        return factorial(modes, exact=True) / np.prod(factorial(counts, exact=True))
+    # exact integer arithmetic: floating point factorials are off from 24 modes on
+    cardinality = factorial(modes, exact=True)
+    for c in counts:
+        cardinality //= factorial(c, exact=True)
 
-    return int(factorial(modes, exact=False) / np.prod(factorial(counts, exact=False)))
+    return int(cardinality)
 
 
 def event_cardinality(photon_number: int, max_count_per_mode: int, modes: int) -> int:
